@@ -2,6 +2,7 @@ package main
 
 import (
 	"fmt"
+	"go/token"
 	"go/types"
 	"sort"
 	"strings"
@@ -10,6 +11,7 @@ import (
 )
 
 type FuncResult struct {
+	Statics   []string
 	Fn        string
 	Contract  *Contract
 	Obls      []*Obligation
@@ -45,8 +47,10 @@ func (w *World) verifyFunction(c *Contract) (res *FuncResult) {
 				panic(r)
 			}
 		}
+		vc.finishPrelude()
 		res.Obls = vc.obls
 		res.Prelude = vc.prelude
+		res.Statics = vc.statics
 		res.Script = vc.script
 		for t := range vc.trusted {
 			res.Trusted = append(res.Trusted, t)
@@ -83,10 +87,13 @@ func (w *World) verifyFunction(c *Contract) (res *FuncResult) {
 	env := vc.contractEnv(c, args, nil, st, nil)
 	var reqs []string
 	for _, cl := range c.Clauses {
-		if cl.Raw.Kind == "requires" {
+		if cl.Raw.Kind == "requires" || cl.Raw.Kind == "use" {
 			t := vc.specBool(env, cl.Expr)
 			reqs = append(reqs, t)
 			vc.assume("true", t)
+			if cl.Raw.Kind == "use" {
+				vc.trusted["lemma instance "+cl.Raw.Text+" (proved separately as a lemma obligation)"] = true
+			}
 		}
 	}
 	// vacuity: the precondition (with the typing assumptions) must be satisfiable
@@ -110,16 +117,19 @@ func (w *World) verifyFunction(c *Contract) (res *FuncResult) {
 			continue
 		}
 		var subs []*SubGoal
-		allTrue := true
 		for _, rs := range fr.retVals {
 			post := vc.contractEnv(c, args, rs.vals, rs.st, vc.entry)
 			g := vc.specBool(post, cl.Expr)
-			if g != "true" {
-				allTrue = false
+			if g == "true" {
+				continue
 			}
 			subs = append(subs, &SubGoal{Prefix: len(vc.script), Cond: rs.st.cond, Goal: g})
 		}
-		vc.obligeSubs("post", cl.Raw.Label, subs, allTrue, fn.Pos(), vc.clauseProps(c, cl))
+		if strings.HasPrefix(c.Raw.Split, "profile") && len(c.SplitExprs) == 2 {
+			vc.splitByProfile(c, cl, args, subs)
+			continue
+		}
+		vc.obligeSubs("post", cl.Raw.Label, subs, len(subs) == 0, fn.Pos(), vc.clauseProps(c, cl))
 	}
 	vc.frameObligations(c, args, out)
 	return res
@@ -139,6 +149,9 @@ func (vc *VC) frameObligations(c *Contract, args []Val, out *State) {
 		base := smtName(name)
 		if cur == base {
 			continue
+		}
+		if !vc.dirty[name] {
+			continue // every store to this heap in this function went to an object allocated here
 		}
 		if strings.HasPrefix(name, "M!") || strings.HasPrefix(name, "G!") || strings.HasPrefix(name, "Z!") {
 			whole := false
@@ -289,8 +302,10 @@ func (w *World) verifyLemma(l *Lemma) (res *FuncResult) {
 				panic(r)
 			}
 		}
+		vc.finishPrelude()
 		res.Obls = vc.obls
 		res.Prelude = vc.prelude
+		res.Statics = vc.statics
 		res.Script = vc.script
 	}()
 	st := &State{heap: newHeap(), cond: "true"}
@@ -432,4 +447,71 @@ func (w *World) subtypePairs() [][2]*Contract {
 		}
 	}
 	return out
+}
+
+// finishPrelude adds the initial contents of static objects (tables) for the
+// heaps this VC uses.
+func (vc *VC) finishPrelude() {
+	var names []string
+	for n := range vc.heapSort {
+		names = append(names, n)
+	}
+	sort.Strings(names)
+	for _, n := range names {
+		if vc.declared[smtName(n)] {
+			vc.staticAxiomsFor(n)
+		}
+	}
+}
+
+// splitByProfile turns one postcondition into one obligation per profile table
+// entry (message, field number) plus one for all pairs without an entry, so
+// that a failure names the entry and each query sees constants.
+func (vc *VC) splitByProfile(c *Contract, cl *Clause, args []Val, subs []*SubGoal) {
+	p := vc.w.profile()
+	env := vc.contractEnv(c, args, nil, vc.entry, nil)
+	mv := env.eval(c.SplitExprs[0])
+	nv := env.eval(c.SplitExprs[1])
+	mw, nw := widthOf(mv.T), widthOf(nv.T)
+	var rowConds []string
+	props := vc.clauseProps(c, cl)
+	byPos := map[token.Pos]*staticObj{}
+	for _, so := range vc.w.gt.statics {
+		byPos[so.pos] = so
+	}
+	// one query per entry: conjunction over the return sites
+	var parts []string
+	maxPrefix := 0
+	for _, sg := range subs {
+		parts = append(parts, imp(sg.Cond, sg.Goal))
+		if sg.Prefix > maxPrefix {
+			maxPrefix = sg.Prefix
+		}
+	}
+	merged := and(parts...)
+	for _, r := range p.Rows {
+		cond := and(eq(mv.L[0], bvLit(mw, uint64(r.Msg))), eq(nv.L[0], bvLit(nw, uint64(r.Num))))
+		rowConds = append(rowConds, cond)
+		extra := vc.rvTableAxioms(r.Msg)
+		if so := byPos[r.Pos]; so != nil {
+			for _, ax := range so.axioms {
+				// "(assert (= (select HEAP ref) v))": only heaps this VC declares
+				f := strings.Fields(ax)
+				if len(f) > 3 && vc.declared[f[3]] {
+					extra = append(extra, ax)
+				}
+			}
+		}
+		ss := []*SubGoal{{Prefix: maxPrefix, Cond: cond, Goal: merged, Extra: extra}}
+		vc.obligeSubs("table", fmt.Sprintf("%s.%d", msgLabel(p, r.Msg), r.Num), ss, len(subs) == 0, token.NoPos, props)
+		o := vc.obls[len(vc.obls)-1]
+		o.Pos = vc.w.Fset.Position(r.Pos).String()
+		o.NoStatics = true
+		o.Batch = fmt.Sprintf("%s#table/%d", vc.fnName(), r.Msg)
+	}
+	var ss []*SubGoal
+	for _, sg := range subs {
+		ss = append(ss, &SubGoal{Prefix: sg.Prefix, Cond: and(sg.Cond, not(or(rowConds...))), Goal: sg.Goal, Extra: vc.rvTableAxioms(-1)})
+	}
+	vc.obligeSubs("table", "unlisted", ss, len(ss) == 0, vc.fn.Pos(), props)
 }
